@@ -302,10 +302,11 @@ Lemma cmon_step_model cf toks prev s c s' o :
   CInv cf s ->
   co_mods prev = map (mods s) all_hooks ->
   co_bound prev = map (fun t => mem t (bound s)) toks ->
+  cwf_call toks c = true ->
   cstep cf s c = (s', o) ->
   cmon_step cf toks prev (CI c o (cobserve toks s')) = true.
 Proof.
-  intros HI Hm Hb Hs. unfold cmon_step. cbn [ci_obs ci_out ci_call].
+  intros HI Hm Hb Hwf Hs. unfold cmon_step. cbn [ci_obs ci_out ci_call]. rewrite Hwf. cbn [andb].
   assert (HI' : CInv cf s').
   { pose proof (cstep_preserves_CInv cf s c HI) as P. rewrite Hs in P. exact P. }
   rewrite (cinv_ok_model cf toks s' HI').
@@ -394,21 +395,21 @@ Qed.
 Lemma cmon_model cf toks cs : forall s prev i,
   CInv cf s -> co_mods prev = map (mods s) all_hooks ->
   co_bound prev = map (fun t => mem t (bound s)) toks ->
+  forallb (cwf_call toks) cs = true ->
   cmon_from cf toks prev (cmodel_items cf toks s cs) i = 0%N.
 Proof.
-  induction cs as [|c cs IH]; intros s prev i HI Hm Hb; cbn [cmodel_items cmon_from]; auto.
+  induction cs as [|c cs IH]; intros s prev i HI Hm Hb Hwf; cbn [cmodel_items cmon_from]; auto.
+  cbn [forallb] in Hwf. apply andb_prop in Hwf. destruct Hwf as [Hw1 Hw2].
   destruct (cstep cf s c) as [s' o] eqn:Hs. cbn [cmon_from].
-  rewrite (cmon_step_model cf toks prev s c s' o HI Hm Hb Hs). cbn [ci_obs].
-  apply IH.
-  - pose proof (cstep_preserves_CInv cf s c HI) as P. rewrite Hs in P. exact P.
-  - reflexivity.
-  - reflexivity.
+  rewrite (cmon_step_model cf toks prev s c s' o HI Hm Hb Hw1 Hs). cbn [ci_obs].
+  apply IH; auto.
+  pose proof (cstep_preserves_CInv cf s c HI) as P. rewrite Hs in P. exact P.
 Qed.
 
 Theorem check_compliance_accepts_model : forall (cf : ccfg) (toks : list addr) (cs : list ccall),
-  0 <= max_modules cf ->
+  0 <= max_modules cf -> forallb (cwf_call toks) cs = true ->
   check_compliance (cobserve_model cf toks cs) = (0%N, 0%N, 0%N).
 Proof.
-  intros cf toks cs H0. unfold check_compliance, cobserve_model. cbn [ct_cfg ct_toks ct_items].
+  intros cf toks cs H0 Hwf. unfold check_compliance, cobserve_model. cbn [ct_cfg ct_toks ct_items].
   rewrite cdiff_model, cmon_model; auto. apply CInv_init. exact H0.
 Qed.
